@@ -1,4 +1,5 @@
 import Req.C02.Bufio
+import Req.C02.Reader
 import Req.Base.Ascii
 /-!
 C02 — the HTTP/3 receive path of one request stream, at message level
@@ -269,14 +270,7 @@ def H3Body.new (h : H3Head) (s : H3Stream) : H3Body :=
   | none => { str := s, hasCL := false, remaining := 0 }
 
 /-- Reads until the first error (incl. EOF). -/
-def H3Body.runReads (b : H3Body) : List Nat → List (Bytes × Option H3Err) × H3Body
-  | [] => ([], b)
-  | k :: ks =>
-    let ((d, e), b') := b.read k
-    match e with
-    | some _ => ([(d, e)], b')
-    | none =>
-      let (rs, b'') := b'.runReads ks
-      ((d, e) :: rs, b'')
+def H3Body.runReads (b : H3Body) (ks : List Nat) : List (Bytes × Option H3Err) × H3Body :=
+  _root_.Req.C02.runReads H3Body.read b ks
 
 end Req.C02
